@@ -61,6 +61,21 @@ CLAIMED = {
                 "Reasoned exemptions are listed in kv/rules/c02.py (EXEMPT_*).",
         "technique": "interprocedural read/write effect summaries + CFG must-pass-through (writer -> invalidator), dominance (reader <- stale check)",
     },
+    "C17": {
+        "category": "other",
+        "text": "Structural clauses of 'displayed numbers are faithful': every print of a fit's stored parameter values / uncertainties (textual report, plot info box; "
+                "model-function strings with parameter values) is dominated - in the same function or in all callers, and in the same loop iteration - by the refresh of "
+                "that fit's formatters from the live results; the refresh copies parameter_values / parameter_errors / asymmetric errors position by position; do_fit "
+                "refreshes before returning; fix / release set the formatter's fixed flag at the parameter's own index and get_formatted tests it before any rounding; "
+                "result dictionary, report and preface comment read the live properties under the documented keys (key -> property table); the decimal-place formulas of "
+                "ScalarFormatter have the canonical forms decimals = n - 1 - floor(log10 sigma) (recomputed after rounding sigma) and value digits = decimals + "
+                "floor(log10|x|) + 1, uncertainties are printed with exactly n significant digits; the regular expression that rewrites scientific notation for LaTeX "
+                "can consume every exponent a double can have (language membership on the parsed regex literal) and both number-printing formatters apply it.",
+        "note": "The rounding arithmetic itself (carry cases, half-unit bounds over the float range, behaviour of %g) is numerical and is not decided; the formula rule fixes "
+                "the decimal-place expression, whose n-dependence was a genuine defect (fixed). The regex rule decides language membership only - not match priorities or "
+                "capture contents.",
+        "technique": "CFG dominance with loop-scope condition + key/property tables + canonical-form comparison + regex language membership on re._parser trees",
+    },
     "C19": {
         "text": "Validate-then-commit path rule (R-A) on the CFG of every function executable after construction on 31 anchor classes (fits, containers, "
                 "parametric models, Nexus and node classes, NexusFitter, both minimizer adapters, CovMat, error and constraint classes): no rejection point "
